@@ -23,7 +23,7 @@
    The statement-level agreement is established on every run by the correspondences T1 (compiler ==
    Compile/Compile.v), T2 (interpreter == Vm/Model.v, per instruction) and T3 (run == Lang/Eval.v). *)
 From MS Require Import Vm.Model Verify.Check Verify.Sound Compile.Compile Lang.Eval Compile.ExprBase Compile.ExprSim.
-From MS Require Import Compile.StmtMach Compile.StmtRel Compile.StmtFrag Compile.StmtSim Compile.StmtFun Compile.StmtExamples.
+From MS Require Import Compile.StmtMach Compile.StmtRel Compile.StmtFrag Compile.StmtSim Compile.StmtFun Compile.StmtExamples Compile.StmtFragB.
 
 Check frames_safe.
 Theorem C01_frames_balanced_partial : forall rc p, checked p ->
@@ -94,6 +94,24 @@ Theorem C01_module_fun_correct_partial : forall (path : str) (FT : ftab) (main :
      vm_outcome_ok (snd (run fuel p)) (snd (fst (execute fuel' (cprogram path p) (s_module_fn path))))).
 Proof. exact module_fun_correct. Qed.
 Print Assumptions C01_module_fun_correct_partial.
+(* the same theorem behind a DECIDABLE test: the check evaluates `in_fragment` (extracted) on every program it
+   generates and counts the programs for which this theorem speaks about the code the real compiler emitted (T1 equal) *)
+Check fragment_correct.
+Theorem C01_fragment_correct_partial : forall (path : str) (p : source), in_fragment path p = true ->
+  forall fuel : nat, snd (run fuel p) <> ROFuel ->
+  no_claim (snd (run fuel p)) \/
+  (exists fuel' : nat,
+     fst (fst (execute fuel' (cprogram path p) (s_module_fn path))) = fst (run fuel p) /\
+     vm_outcome_ok (snd (run fuel p)) (snd (fst (execute fuel' (cprogram path p) (s_module_fn path))))).
+Proof. exact fragment_correct. Qed.
+Print Assumptions C01_fragment_correct_partial.
+Check in_fragment_sound.
+Example C01_nv_in_fragment : in_fragment nvp nv_s6 = true /\ in_fragment nvp nv_s4 = true /\ in_fragment nvp nv_s1f = true.
+Proof. vm_compute. repeat split. Qed.
+(* ... and it rejects what is outside: a closure over a data variable *)
+Example C01_nv_not_in_fragment :
+  in_fragment nvp [SAssign [120%N] (EInt 1); SAssign [102%N] (EFn [] [SReturn (Some (EVar [120%N]))]); SPrint (ECall (EVar [102%N]) [])] = false.
+Proof. vm_compute. reflexivity. Qed.
 Check fun_sim.
 Check gcall_ok.
 Check C01_nv_stage4b. Check C01_nv_fun_theorem_applies. Check C01_nv_stage4c. Check C01_nv_rec_theorem_applies.
